@@ -54,6 +54,14 @@ _BL = {"i": 0}
 DECODERS = {"string": util.sigdecode_string, "strings": util.sigdecode_strings, "der": util.sigdecode_der}
 
 
+class _CallableDecoder(object):
+    def __init__(self, f):
+        self.f = f
+
+    def __call__(self, sig, order):
+        return self.f(sig, order)
+
+
 def judge(ctx, vk, dom, Q, sig, fmt, digest, allow_truncate, cls, key, cname, d=None, via_verify=None):
     """One verification call judged against the reference."""
     dec = DECODERS[fmt]
@@ -81,6 +89,9 @@ def judge(ctx, vk, dom, Q, sig, fmt, digest, allow_truncate, cls, key, cname, d=
         else:
             sig_arg = gen.pick_container(sig, _BL["i"] // 3 + 5, exotic=True)[1]
         ctx.count("bytes_like_arguments")
+    if _BL["i"] % 5 == 1:
+        import functools
+        dec = functools.partial(dec) if _BL["i"] % 2 else _CallableDecoder(dec)      # callables that are not plain functions (no __name__)
     try:
         if via_verify is not None:
             data, hf = via_verify
